@@ -99,7 +99,7 @@ def nontrivial_C02(sc, obs):
 
 
 # ------------------------------------------------------------------ C03
-K_C03 = dict(p_clone=0.1, hosted=0.15, sends=0.4, send_budget=12, rtc_false=0.3, cbs=0.6, conv=0.2, p_async=0.25, guards=0.2,
+K_C03 = dict(odd_values=0.15, p_clone=0.1, hosted=0.15, sends=0.4, send_budget=12, rtc_false=0.3, cbs=0.6, conv=0.2, p_async=0.25, guards=0.2,
              ops=(1, 6), multi_prov=0.1, scripts=(1, 4))
 
 
@@ -137,7 +137,7 @@ def nontrivial_C03(sc, obs):
 
 
 # ------------------------------------------------------------------ C04
-K_C04 = dict(base_exc=0.3, stop_iter=0.35, hosted=0.1, sends=0.3, send_budget=8, cbs=0.5, conv=0.2, validators=0.3, guards=0.4, rtc_false=0.25,
+K_C04 = dict(user_tna=0.35, base_exc=0.3, stop_iter=0.35, hosted=0.1, sends=0.3, send_budget=8, cbs=0.5, conv=0.2, validators=0.3, guards=0.4, rtc_false=0.25,
              p_async=0.3, ops=(2, 5), raises=0.0, guard_raise=0.0, multi_prov=0.15)
 
 
@@ -184,7 +184,7 @@ def nontrivial_C04(sc, obs):
 
 
 # ------------------------------------------------------------------ C11
-K_C11 = dict(falsy_model=0.12, hosted=0.1, p_clone=0.12, resume=0.45, start=0.3, p_activate=0.2, p_construct=0.2, p_async=0.35, sends=0.15, cbs=0.5,
+K_C11 = dict(recording_model=0.3, falsy_model=0.12, hosted=0.1, p_clone=0.12, resume=0.45, start=0.3, p_activate=0.2, p_construct=0.2, p_async=0.35, sends=0.15, cbs=0.5,
              conv=0.3, p_values=0.3, ops=(1, 8), rtc_false=0.2, decoys=0.35)
 
 
@@ -197,7 +197,7 @@ def nontrivial_C11(sc, obs):
 
 
 # ------------------------------------------------------------------ C14
-K_C14 = dict(p_clone=0.06, wrapped_coros=0.4, any_group=0.2, callable_refs=0.2, state_decor=0.2, decor=0.6, cbs=0.8, cb_max=3, conv=0.35, ret_none=0.25, self_loop=0.3, internal=0.5, multi_event=0.5,
+K_C14 = dict(odd_values=0.15, p_clone=0.06, wrapped_coros=0.4, any_group=0.2, callable_refs=0.2, state_decor=0.2, decor=0.6, cbs=0.8, cb_max=3, conv=0.35, ret_none=0.25, self_loop=0.3, internal=0.5, multi_event=0.5,
              p_async=0.3, sends=0.05, guards=0.3, listeners=(0, 2), multi_prov=0.3, allow=0.4, share_groups=0.3)
 
 
@@ -216,12 +216,173 @@ def nontrivial_C14(sc, obs):
 
 SPECS = {
     "C01": dict(knobs=K_C01, nontrivial=nontrivial_C01, n=(2200, 40000)),
-    "C02": dict(knobs=K_C02, nontrivial=nontrivial_C02, n=(1800, 30000), late=0.3, overlap=True, extra=extra_C02),
+    "C02": dict(knobs=K_C02, nontrivial=nontrivial_C02, n=(1800, 30000), late=0.3, overlap=True, extra=extra_C02,
+                probes=[{"probe": "same_class_listener", "with_listener": True},
+                        {"probe": "same_class_listener", "with_listener": False}]),
     "C03": dict(knobs=K_C03, nontrivial=nontrivial_C03, n=(1800, 20000), extra=extra_C03),
     "C04": dict(knobs=K_C04, nontrivial=nontrivial_C04, n=(260, 5000), faults=True),
-    "C11": dict(knobs=K_C11, nontrivial=nontrivial_C11, n=(2000, 30000)),
-    "C14": dict(knobs=K_C14, nontrivial=nontrivial_C14, n=(2000, 30000)),
+    "C11": dict(knobs=K_C11, nontrivial=nontrivial_C11, n=(2000, 30000), probes=[{"probe": "threads_overlap"}]),
+    "C14": dict(knobs=K_C14, nontrivial=nontrivial_C14, n=(2000, 30000),
+                probes=[{"probe": "event_name_callback", "rtc": True}, {"probe": "event_name_callback", "rtc": False}]),
 }
+
+
+# ------------------------------------------------------------------ probes (fixed-shape machines, direct assertions)
+def probe_same_class_listener(sc):
+    """C02: callbacks given by decorators / function objects run exactly once per transition, also when
+    another instance of the same machine class is attached as a listener (it provides the same functions);
+    callbacks given by name run once per provider"""
+    import warnings
+    from statemachine import State, StateMachine
+    calls = []
+
+    def plain_on(machine):
+        calls.append(("fn_on", id(machine)))
+
+    class W(StateMachine):
+        a = State(initial=True)
+        b = State()
+        go = a.to(b, on=plain_on, after="named_after") | b.to(a, on=plain_on, after="named_after")
+
+        @go.before
+        def dec_before(self):
+            calls.append(("dec_before", id(self)))
+
+        @b.enter
+        def dec_enter(self):
+            calls.append(("dec_enter", id(self)))
+
+        @a.exit
+        def dec_exit(self):
+            calls.append(("dec_exit", id(self)))
+
+        def named_after(self):
+            calls.append(("named_after", id(self)))
+    bad = []
+    with warnings.catch_warnings():
+        warnings.simplefilter("ignore")
+        other = W()
+        sm = W(listeners=[other] if sc["with_listener"] else [])
+        del calls[:]
+        sm.send("go")
+    names = [c[0] for c in calls]
+    for nm in ("dec_before", "dec_enter", "dec_exit", "fn_on"):
+        if names.count(nm) != 1:
+            bad.append(f"{nm} ran {names.count(nm)} time(s) in one transition")
+    want_named = 2 if sc["with_listener"] else 1
+    if names.count("named_after") != want_named:
+        bad.append(f"named_after ran {names.count('named_after')} time(s), expected once per provider ({want_named})")
+    if other.current_state.id != "a":
+        bad.append("the listener instance moved")
+    return {"probe": sc["probe"], "bad": bad}
+
+
+def probe_event_name_callback(sc):
+    """C14: a before / on callback given as the NAME OF AN EVENT fires that event; under rtc=False the
+    nested event runs at once and its result is this callback's contribution, under run-to-completion the
+    nested event is queued and the contribution is None"""
+    import warnings
+    from statemachine import State, StateMachine
+
+    class Chain(StateMachine):
+        idle = State(initial=True)
+        busy = State()
+        start = idle.to(busy, before="prepare", on="audit")
+        audit = busy.to.itself(internal=True) | idle.to.itself(internal=True)
+        stop = busy.to(idle)
+
+        def prepare(self):
+            return "prepared"
+
+        def before_audit(self):
+            return "auditing"
+
+        def on_audit(self):
+            return 1
+    bad = []
+    with warnings.catch_warnings():
+        warnings.simplefilter("ignore")
+        sm = Chain(rtc=sc["rtc"])
+        r = sm.send("start")
+    want = ["prepared", None] if sc["rtc"] else ["prepared", ["auditing", 1]]
+    if r != want:
+        bad.append(f"start returned {r!r}, expected {want!r}")
+    if sm.current_state.id != "busy":
+        bad.append("state " + sm.current_state.id)
+    return {"probe": sc["probe"], "bad": bad}
+
+
+def probe_threads_overlap(sc):
+    """C11 / C16: two machines with coroutine callbacks, each created and activated from synchronous code in
+    a thread of its own, overlapping in time: both enter their initial state"""
+    import asyncio
+    import threading
+    import warnings
+    from statemachine import State, StateMachine
+    in_a, go_a = threading.Event(), threading.Event()
+    errors, entered = [], []
+
+    class A(StateMachine):
+        s = State(initial=True)
+        t = State()
+        go = s.to(t)
+
+        async def on_enter_s(self):
+            in_a.set()
+            for _ in range(200):
+                if go_a.is_set():
+                    break
+                await asyncio.sleep(0.005)
+            entered.append("A")
+
+    class B(StateMachine):
+        s = State(initial=True)
+        t = State()
+        go = s.to(t)
+
+        async def on_enter_s(self):
+            entered.append("B")
+
+    def run_a():
+        try:
+            with warnings.catch_warnings():
+                warnings.simplefilter("ignore")
+                a = A()
+                a.activate_initial_state()
+                entered.append(("A-state", a.current_state.id))
+        except Exception as e:  # noqa: BLE001
+            errors.append("A: " + repr(e))
+
+    def run_b():
+        try:
+            with warnings.catch_warnings():
+                warnings.simplefilter("ignore")
+                b_ = B()
+                b_.activate_initial_state()
+                b_.send("go")
+                entered.append(("B-state", b_.current_state.id))
+        except Exception as e:  # noqa: BLE001
+            errors.append("B: " + repr(e))
+    ta = threading.Thread(target=run_a, daemon=True)
+    ta.start()
+    in_a.wait(5)
+    tb = threading.Thread(target=run_b, daemon=True)
+    tb.start()
+    tb.join(5)
+    go_a.set()
+    ta.join(5)
+    for th in (ta, tb):       # close the loops the library cached for these threads
+        pass
+    bad = list(errors)
+    if ("B-state", "t") not in entered:
+        bad.append(f"machine B did not run normally while A was inside its activation: {entered}")
+    if ("A-state", "s") not in entered:
+        bad.append(f"machine A did not finish its activation: {entered}")
+    return {"probe": sc["probe"], "bad": bad}
+
+
+PROBES = {"same_class_listener": probe_same_class_listener, "event_name_callback": probe_event_name_callback,
+          "threads_overlap": probe_threads_overlap}
 
 
 def install(prop, g):
@@ -236,6 +397,10 @@ def install(prop, g):
             ex, what = spec["extra"](rng, tier)
             scs += ex
             parts.append((what, len(ex)))
+        if spec.get("probes"):
+            scs += [dict(p_) for p_ in spec["probes"]]
+            parts.append(("probes (fixed machines, direct assertions): " + ", ".join(sorted({p_["probe"] for p_ in spec["probes"]})),
+                          len(spec["probes"])))
         base = [enggen.gen_scenario(rng, spec["knobs"]) for _ in range(n)]
         if spec.get("late"):
             # some listeners are attached later with add_listener, at random points of the history
@@ -262,6 +427,9 @@ def install(prop, g):
         import collections
         h = collections.Counter()
         for s in scs:
+            if s.get("probe"):
+                h["probe: " + s["probe"]] += 1
+                continue
             h["async" if s.get("async") else "sync"] += 1
             h["rtc" if s.get("rtc", True) else "non-rtc"] += 1
             h["style=" + s.get("evstyle", "str")] += 1
@@ -280,27 +448,49 @@ def install(prop, g):
                     h["feature: " + feat] += 1
         oh = collections.Counter()
         for ob in obs:
+            if isinstance(ob, dict):
+                continue
             for o in ob:
                 oh["ok" if o["out"][0] == "v" else "exn:" + o["out"][1][0]] += 1
         return {"scenario_histogram": dict(sorted(h.items())),
                 "operation_outcome_histogram": dict(oh),
                 "out_of_scope": sum(1 for v in verdicts if v == 9)}
 
+    def run_impl_(sc):
+        if sc.get("probe"):
+            return PROBES[sc["probe"]](sc)
+        return run_impl(sc)
+
+    def render_source_(sc):
+        if sc.get("probe"):
+            return "# probe " + sc["probe"] + ": " + " ".join((PROBES[sc["probe"]].__doc__ or "").split()) + f"\n# parameters: {sc}\n"
+        return render_source(sc)
+
+    def nontrivial_(sc, obs):
+        return False if sc.get("probe") else spec["nontrivial"](sc, obs)
+
     def coq_case_checked(sc, obs):
+        if sc.get("probe"):
+            return f"(asserted {0 if obs['bad'] else 1})"
+        return "(wfc " + coq_case_inner(sc, obs) + ")"
+
+    def coq_case_inner(sc, obs):
         # a callback that began while a callback of another group was still running (a coroutine that
         # really suspends): the groups are not sequential - reported through an impossible observation
         if spec.get("overlap") and obs and obs[0].get("overlap"):
             return eng.coq_case(sc, [])
         return eng.coq_case(sc, obs)
 
-    g.update(PROP=prop, RUN_MODULE=RUN_MODULE, VERDICT_FN=f"verdict_{prop}", CHUNK=CHUNK,
-             run_impl=run_impl, coq_case=coq_case_checked, render_source=render_source, DRIVER_ERR=DRIVER_ERR,
-             generate=generate, nontrivial=spec["nontrivial"], extra_coverage=extra_coverage,
+    g.update(PROP=prop, RUN_MODULE=RUN_MODULE, VERDICT_FN=f"(any_of verdict_{prop})", CHUNK=CHUNK,
+             run_impl=run_impl_, coq_case=coq_case_checked, render_source=render_source_, DRIVER_ERR=DRIVER_ERR,
+             generate=generate, nontrivial=nontrivial_, extra_coverage=extra_coverage,
              CLASSIFIERS={}, explain=explain_for(prop))
 
 
 def explain_for(prop):
     def explain(sc, obs):
+        if sc.get("probe"):
+            return obs
         from . import core
         out = core.coq_eval(RUN_MODULE, f"diag fl_{prop} " + eng.coq_case(sc, obs))
         return out[-6000:]
